@@ -162,6 +162,31 @@ def run_streams(res: Result, streams: list[Stream], broken, known_match=None, ma
         res.violation(what, rep, no_input=True)
     return failures, divergences
 
+POLLUTED_TAG = " @after-in-place-edits-of-handed-out-objects"
+
+def polluted_variants(streams, rng, tier):
+    """a sample of every stream asked again in a process in which objects HANDED OUT by earlier library calls (factory
+    results, enumerations, commutants, products, copies and the lists they came in) have been edited in place: PauliStrings
+    and lists are mutable, so every public function must hand out objects of its own; same oracle, same model comparison"""
+    import pollute
+    k = 150 if tier == "thorough" else 40
+    out = []
+    for st in streams:
+        if not st.lines or getattr(st, "no_pollution", False):
+            continue
+        idx = sorted(rng.sample(range(len(st.lines)), min(k, len(st.lines))))
+        state = {"done": 0}
+        def impl(l, st=st, state=state):
+            if state["done"] % 20 == 0:
+                pollute.pollute_all(f"{st.name}:{state['done']}")
+            state["done"] += 1
+            return st.impl(l)
+        v = Stream(st.name + POLLUTED_TAG, [st.lines[i] for i in idx], impl, oracle=st.oracle, nontrivial=st.nontrivial,
+                   shrink=None, tag=(lambda l, o, st=st: "polluted:" + str(st.tag(l, o))) if st.tag else None, model=st.model,
+                   batch_oracle=st.batch_oracle, canon=st.canon)
+        out.append(v)
+    return out
+
 def standard_main(pid, tier, level, theorems, imports, build_streams, known_match=None, rule="", assumptions=()):
     res = Result(pid, tier, level)
     res.cov["rule"] = rule
@@ -172,6 +197,8 @@ def standard_main(pid, tier, level, theorems, imports, build_streams, known_matc
         broken, info = prepare(res, theorems, imports)
         rng = random.Random(seed() * 1000003 + int(pid[1:]))
         streams = build_streams(rng, tier)
+        if os.environ.get("VERIF_NO_POLLUTION") != "1":
+            streams = streams + polluted_variants(streams, random.Random(seed() * 7919 + int(pid[1:])), tier)
         run_streams(res, streams, broken, known_match)
     except Exception as e:
         traceback.print_exc()
